@@ -53,10 +53,13 @@ def describe(v, mode):
 def evaluate(ck, vecs, h):
     env = lambda v: {"v": raw(v["v"]), "n": raw(v["n"]), "HOME": raw(v["home"]),
                      "IFS": raw(v["ifs"]["val"]) if v["ifs"]["set"] else ""}
-    eres = vlib.run_harness(h, "shellapi", [{"s": raw(v["src"]), "env": env(v), "mode": "expand"} for v in vecs], shards=8)
-    fres = vlib.run_harness(h, "shellapi", [{"s": raw(v["src"]), "env": env(v), "mode": "fields"} for v in vecs], shards=8)
-    bdoc = vlib.run_shell_evals([bash_doc(v) for v in vecs], prelude=PRE, locale="C.utf8", jobs=4, per_process=3000)
-    barg = vlib.run_shell_evals([bash_arg(v) for v in vecs], prelude=PRE, locale="C.utf8", jobs=4, per_process=3000)
+    from concurrent.futures import ThreadPoolExecutor
+    with ThreadPoolExecutor(max_workers=4) as ex:     # Go API and bash run side by side
+        f_e = ex.submit(vlib.run_harness, h, "shellapi", [{"s": raw(v["src"]), "env": env(v), "mode": "expand"} for v in vecs], shards=4)
+        f_f = ex.submit(vlib.run_harness, h, "shellapi", [{"s": raw(v["src"]), "env": env(v), "mode": "fields"} for v in vecs], shards=4)
+        f_bd = ex.submit(vlib.run_shell_evals, [bash_doc(v) for v in vecs], prelude=PRE, locale="C.utf8", jobs=3, per_process=3000)
+        f_ba = ex.submit(vlib.run_shell_evals, [bash_arg(v) for v in vecs], prelude=PRE, locale="C.utf8", jobs=3, per_process=3000)
+        eres, fres, bdoc, barg = f_e.result(), f_f.result(), f_bd.result(), f_ba.result()
     for v, er, fr, bd, ba in zip(vecs, eres, fres, bdoc, barg):
         if v["nontrivial"]:
             ck.cov["distinct_nontrivial"] += 1
